@@ -311,8 +311,22 @@ Nodes OrthoPlanariser::computeCrossings(void) {
     // Experimentally determined partition tolerance:
     const double tol = 0.8;
     vector<Events> xparts = partition<Event*>(evts, [](Event *e)->double{return e->x();}, tol);
-    // Set of Events representing open horizontal segments:
-    std::set<Event*> openH;
+    // Set of Events representing open horizontal segments.
+    // These are ordered by the (fixed) y-coordinate of the segment and then by
+    // the ID of the node at its far end, rather than by pointer value, so that
+    // the order in which crossings are discovered, and hence the IDs of the new
+    // crossing nodes, do not depend on where the Events were allocated. (Note
+    // that neither of these values changes while an Event is in the set.)
+    struct CmpOpenEvents {
+        bool operator()(const Event *a, const Event *b) const {
+            if (a->constCoord != b->constCoord) return a->constCoord < b->constCoord;
+            unsigned ida = a->companion->endpt->id(),
+                     idb = b->companion->endpt->id();
+            if (ida != idb) return ida < idb;
+            return a < b;
+        }
+    };
+    std::set<Event*, CmpOpenEvents> openH;
     // Iterate over the x-parts.
     for (Events part : xparts) {
         // Event pointer representing open vertical segment:
